@@ -89,10 +89,18 @@ def run_case(case):
             rho = float(10.0 ** rng.uniform(-3, 2))
             # mostly moderate steps, a share of very long ones (tiny lamb = 1/dt on the diagonal)
             dt = float(10.0 ** rng.uniform(-3, 2)) if rng.random() < 0.7 else float(10.0 ** rng.uniform(2, 9))
+            # the look-ahead parameter of the active-set rule (None = the step size itself)
+            tau = float(10.0 ** rng.uniform(-3, 1)) if rng.random() < 0.4 else None
             # reference step
-            p = R.proj_point(D, xh, xh, yh, rho, dt)
-            pmag = np.abs(xh) + dt * (D.gabs(xh) + D.Jabs(xh).T.dot(rho * D.cabs(xh) + np.abs(yh)))
-            amb = (np.abs(p - (D.lb - 1e-8)) <= 1e-9 * (pmag + 1.0)) | (np.abs(p - (D.ub + 1e-8)) <= 1e-9 * (pmag + 1.0))
+            p = R.proj_point(D, xh, xh, yh, rho, dt, tau)
+            pmag = np.abs(xh) + (dt if tau is None else tau) * (
+                D.gabs(xh) + D.Jabs(xh).T.dot(rho * D.cabs(xh) + np.abs(yh)))
+            # activity threshold: 1e-8 in the unscaled formulation (Standard step solver), 1e-8 in units of lamb = 1/dt
+            # in the scaled one (the other step solvers): points between the two thresholds (widened by rounding)
+            # have no single "same active set" and are skipped
+            s_lo, s_hi = 1e-8 * min(1.0, dt), 1e-8 * max(1.0, dt)
+            r = 1e-9 * (pmag + 1.0)
+            amb = ((p >= D.lb - s_hi - r) & (p <= D.lb - s_lo + r)) | ((p <= D.ub + s_hi + r) & (p >= D.ub + s_lo - r))
             if amb.any():
                 bump("skipped_ambiguous_active_set")
                 continue
@@ -112,6 +120,10 @@ def run_case(case):
             bump("points")
             bump("points_nonlinear_rows_violated", int(nonlin and cviol > 1e-3))
             bump("points_active_set_nonempty", int(act.any()))
+            if tau is not None:
+                bump("points_with_tau")
+                bump("points_tau_changes_active_set",
+                     int(not np.array_equal(act, R.active_set(D, R.proj_point(D, xh, xh, yh, rho, dt)))))
             results = {}
             for ss, ls in COMBOS:
                 for nt in NEWTONS:
@@ -125,7 +137,8 @@ def run_case(case):
                     it = Iterate(tp, params, xh, yh, T.evaluator)
                     rec.mats = []
                     try:
-                        meth = newton_method(tp, params, it, dt, rho)
+                        meth = (newton_method(tp, params, it, dt, rho) if tau is None
+                                else newton_method(tp, params, it, dt, rho, tau))
                         res = meth.step(it)
                     except StepSolverError:
                         bump("step_solver_error_%s" % ls)
@@ -138,7 +151,7 @@ def run_case(case):
                         viol.append({"what": "active set of the step %s differs from the documented rule %s"
                                              % (np.asarray(res.active_set), act),
                                      "key": dict(key, kind="active-set"),
-                                     "detail": {"fam": fam, "gseed": gseed, "dt": dt, "rho": rho}})
+                                     "detail": {"fam": fam, "gseed": gseed, "dt": dt, "rho": rho, "tau": tau}})
                         continue
                     err = max(float(np.max(np.abs(xg - xr))) if n else 0.0,
                               float(np.max(np.abs(yg - yr))) if m else 0.0)
@@ -189,7 +202,7 @@ def run_case(case):
                                      "key": {"step_solver": ss, "linear": ls, "newton": nt, "kind": "variant-first-step"},
                                      "detail": {"fam": fam, "gseed": gseed, "dt": dt, "rho": rho}})
             # QP: one step with unchanged active set solves the implicit-Euler equation
-            if spec.is_qp:
+            if spec.is_qp and tau is None:
                 xun = xh - s[:n]
                 inact = ~act
                 if np.all(xun[inact] >= D.lb[inact]) and np.all(xun[inact] <= D.ub[inact]):
@@ -233,12 +246,13 @@ def run_case(case):
 def finalize(agg, tier):
     return {
         "rule": "generated NLP (violated nonlinear rows), QP and degenerate specs x in-box points (25% of components on a "
-                "bound) x multipliers 1e-1..1e1 x dt, rho in 1e-3..1e2; every point is run through all 27 step-solver x "
+                "bound) x multipliers 1e-1..1e1 x dt, rho in 1e-3..1e2 x look-ahead tau (None, or 1e-3..10 on 40% of the points); every point is run through all 27 step-solver x "
                 "linear-solver x Newton-variant combinations; points whose reference Jacobian has cond > 1e6 or whose "
                 "activity test is within rounding of its threshold are skipped and counted; non-trivial = point with a "
                 "reference step that was compared; distinct by spec seed",
         "floors": {"points": 300, "points_nonlinear_rows_violated": 60, "points_active_set_nonempty": 100,
                    "variant_triples_compared": 2000, "qp_one_step_exact_checked": 50,
+                   "points_with_tau": 80, "points_tau_changes_active_set": 15,
                    "steps_Standard_LU": 500, "steps_Extended_LU": 500, "steps_Symmetric_LU": 500,
                    "steps_Asymmetric_LU": 500, "steps_Symmetric_MINRES": 300, "steps_Asymmetric_GMRES": 300},
         "assumptions": ["LU: forward error <= 1e-8 * cond(F') * |step|; iterative solvers are compared with the LU step "
